@@ -22,6 +22,23 @@ def replay_file(prop, path):
     if rec.get("witness") is not None:
         print("recorded failing input:", json.dumps(rec["witness"], default=repr)[:2000])
         print("recorded observation:", str(rec.get("detail", {}).get("observed"))[:2000])
+    w = rec.get("witness") or {}
+    if isinstance(w, dict) and "sources" in w:
+        # bounded obligation: re-run the recorded program under the recorded options on the current tree
+        from bounded import props as P
+
+        orig = P.vectors
+        try:
+            P.vectors = lambda kind, _o=[w.get("options") or {}]: list(_o)
+            r = P.full_task((w.get("seed", 0), {"sources": w["sources"]}, "default", ["C01", "C02", "C05", "C06", "C07", "C07a", "C09", "C17"]))
+        finally:
+            P.vectors = orig
+        print("status:", r["status"], r.get("detail", ""))
+        for k, fs in r.get("fails", {}).items():
+            for f in fs[:3]:
+                print(f"  {k}: {f['what'][:400]}")
+        relevant = [k for k in r.get("fails", {}) if k.startswith(prop) or (prop in ("C04", "C13") and k in ("C01", "C02"))]
+        return 1 if relevant else 0
     mod = importlib.import_module("checks." + prop)
     seen = {}
     orig_finish = R.Report.finish
